@@ -524,6 +524,22 @@ def run(ck):
           "releaseConnection at line %s gives back a connection that was already handed a request at line %s: the pool hands it to the next "
           "request while the first is still queued on it" % (late7[0].get("l"), uses7[0].get("l")))
 
+    # ---------------- R15: the request is parked on the connection before the connect is started ----------------
+    ck.rule("C15-R15", "C ordering",
+            "on the arm of Client::doRequest that uses a connection which still has to connect, the request is handed to the connection "
+            "(asyncPerform parks it in the connection's queue) before Connection::connect is called: the reactor thread drains that "
+            "queue once, when the connect completes -- a request parked after that is never sent, never times out and keeps its slot", 1)
+    conn_calls = [e for e in dr7.events("call") if (e.get("callee") or "") == CONN + "connect"]
+    parks = [e for e in dr7.events("call") if (e.get("callee") or "") == CONN + "asyncPerform"]
+    ck.require(conn_calls and parks, "Client::doRequest: connect (%d) / asyncPerform (%d) not found" % (len(conn_calls), len(parks)))
+    dom15 = cfg.dominators(dr7)
+    for c_ in conn_calls:
+        okp = any(cfg.ev_dominates(dom15, p_, c_) for p_ in parks)
+        ck.ob("C15-R15", "doRequest/parked-before-connect@%s" % c_.get("l"), okp, c_.loc, dr7,
+              "asyncPerform precedes connect" if okp else
+              "connect() at line %s is started before the request is parked on the connection: if the connect completes first, the drain of the "
+              "connection's queue finds nothing and nothing looks at the queue again" % c_.get("l"))
+
     # ---------------- R9: check-then-enqueue is followed by a re-check ----------------
     ck.rule("C15-R9", "C must-pass-through (lost wake-up)",
             "in Client::doRequest, on the arm where no connection could be claimed, the enqueue of the request is followed on every path by "
